@@ -970,20 +970,29 @@ package edwards25519
 //@   ensures [value] pt(v) == smul(nval(x), gbase())
 
 // width-w non-adjacent form: sum naf[j]*2^j is the scalar's integer, non-zero digits are odd and below 2^(w-1).
-// ASSUMED (trusted), not proved: two attempts are recorded in DESIGN.md (S.7).  With one cut point per bit position
-// and the invariant  S(pos) + carry*2^pos == K mod 2^pos, carry in {0,1}, carry == 1 ==> pos <= 253  every
-// obligation except [prefix] is discharged in QF_LIA, but 210 of the [prefix] steps time out (bit re-slicing of the
-// byte array at a moving offset is outside what linear arithmetic does quickly), and in QF_BV the 256-term digit
-// sums over wide vectors do not finish within the budget either.
+// Proved with one cut point per bit position: S + carry*2^pos == K mod 2^pos where S is the digit sum written so far
+// and K the scalar's integer; digits from pos on are still zero; a pending carry implies pos <= 254 (K < 2^253).
+// The bytes of K are introduced as sums of their bits (`opt bitbytes`), so that every window -- a bit slice of K at a
+// concrete offset -- is an exact linear term.
 //@ define nafsum(a, n) = sum j in 0..n: a[j] * 2^j
 //@ define nafdigit(x, w) = x == 0 || (x % 2 != 0 && 0 - 2^(w - 1) < x && x < 2^(w - 1))
 //@ func (*Scalar).nonAdjacentForm(s, w)
 //@   mode lia
-//@   trusted the recoder's loop invariant does not discharge within the budget (see above)
+//@   opt bitbytes wrapshift wrapconv chainposts widepost=4000
 //@   leak vartime operation used only by the VarTime routines (exempt)
 //@   requires [reduced] sinv(s)
 //@   requires [width] w == 5 || w == 8
+//@   entrysplit w in {5,8}
 //@   assigns nothing
+//@   loop 2 var pos
+//@   loop 2 opt cut
+//@   loop 2 modifies naf
+//@   loop 2 invariant [carry] carry == 0 || carry == 1
+//@   loop 2 invariant [tail] forall j in 0..256: (j >= pos ==> naf[j] == 0)
+//@   loop 2 invariant [digits] forall j in 0..256: nafdigit(naf[j], w)
+//@   loop 2 invariant [prefix] nafsum(naf, 256) + carry * 2^pos == le(b, 32) % 2^pos
+//@   loop 2 invariant [top] carry == 1 ==> pos <= 254
+//@   ensuresbody [same] nafsum(result, 256) == le(b, 32)
 //@   ensures [digits] forall j in 0..256: nafdigit(result[j], w)
 //@   ensures [canonical] 0 <= nafsum(result, 256) && nafsum(result, 256) < L
 //@   ensures [value] cong(nafsum(result, 256), ev4(s.s) * RINV, L)
